@@ -1,7 +1,7 @@
 #!/bin/bash
 # Re-run every seeded change against the committed /verif and /repo HEAD (isolated copies):
 # the check of the targeted property (or, where that is documented not to apply, the first check
-# recorded as catching it) must still report it.   tools/recheck_seeded.sh [lanes]
+# recorded as catching it) must still report it.   VERIF_SEED=n tools/recheck_seeded.sh [lanes]
 LANES=${1:-4}
 cd /verif
 ids=$(ls seeded | grep -E '^C[0-9]+-' )
@@ -12,7 +12,7 @@ import json
 m=json.load(open('/verif/seeded/$id/meta.json'))
 t=m['breaks_property']
 print(t if t in m['caught_by'] else m['caught_by'][0])")
-    r=$(tools/try_mutant_iso.sh seeded/$id/patch.diff $p 2>&1 | head -1 | cut -c1-160)
+    r=$(tools/try_mutant_iso.sh seeded/$id/patch.diff $p 2>/dev/null | grep -a -m1 -E "rc=|does not apply" | cut -c1-160)
     echo "$id via $r"
   done
 }
@@ -20,6 +20,8 @@ i=0; declare -a L
 for id in $ids; do L[$((i%LANES))]+=" $id"; i=$((i+1)); done
 for k in $(seq 0 $((LANES-1))); do run_lane ${L[$k]} > /verif/work/recheck-$k.log 2>&1 & done
 wait
-cat /verif/work/recheck-*.log | sort > /verif/seeded/RECHECK.txt
-echo "rechecked $(wc -l < /verif/seeded/RECHECK.txt); not caught: $(grep -vc 'rc=1' /verif/seeded/RECHECK.txt)"
-grep -v 'rc=1' /verif/seeded/RECHECK.txt
+OUT=/verif/seeded/RECHECK-seed${VERIF_SEED:-0}.txt
+cat /verif/work/recheck-*.log | sort > $OUT
+rm -f /verif/work/recheck-*.log
+echo "rechecked $(wc -l < $OUT) with VERIF_SEED=${VERIF_SEED:-0}; not caught: $(grep -vc 'rc=1' $OUT)"
+grep -v 'rc=1' $OUT
